@@ -129,7 +129,7 @@ def build(site, basic, factor, voltage=208):
 
 
 def bounds(tier, seed):
-    return {"levels": [0, 0.5, 1] if tier == "quick" else [0, 0.25, 0.5, 0.75, 1], "lambdas": [0.25, 0.5, 0.75, 1.0], "bisection_steps": 50, "factors": [0.5, 1, 2], "evse_types": ["basic", "real"], "evse_voltage_argument": [208, 200, 240]}
+    return {"levels": [0, 0.5, 1] if tier == "quick" else [0, 0.25, 0.5, 0.75, 1], "lambdas": [0.25, 0.5, 0.75, 1.0], "bisection_steps": 40, "factors": [0.5, 1, 2], "evse_types": ["basic", "real"], "evse_voltage_argument": [208, 200, 240]}
 
 
 def space(tier, seed):
@@ -153,6 +153,13 @@ def space(tier, seed):
                 nch = 1 if nact <= 3 else (4 if nact <= 6 else 16)
                 for ch in range(nch):
                     items.append({"site": site, "basic": basic, "factor": f, "tr": tr, "tier": tier, "chunk": [ch, nch], "voltage": 208, "variant": variant})
+    # a transformer whose capacity argument is exactly 0 (switched off): nothing but the all-zero schedule is admissible
+    for site in SITES:
+        for tr in sorted(SITES[site]["transformers"]):
+            nact = sum(1 for c in SITES[site]["classes"].values() if c[1] == tr)
+            nch = 1 if nact <= 3 else (4 if nact <= 6 else 16)
+            for ch in range(nch):
+                items.append({"site": site, "basic": True, "factor": 0, "tr": tr, "tier": tier, "chunk": [ch, nch], "voltage": 208})
     items.append({"site": "simple", "basic": True, "factor": 1, "tr": "agg", "tier": tier})
     return items
 
@@ -166,8 +173,8 @@ def oracle(spec, factor, sums, rep, ctx, stats):
         tot = sum(s for c, s in sums.items() if spec["classes"][c][1] == tr)
         p = VLL * tot
         lim = cap * factor * 1000.0
-        worst = max(worst, p / lim)
-        if p > lim * (1 + 2e-7) + 1e-3:
+        worst = max(worst, p / lim if lim > 0 else (float("inf") if p > 0.05 else 0.0))
+        if p > lim * (1 + 2e-7) + 0.05:  # W; the network itself tolerates 1e-5 A on every line constraint
             rep("power:%s" % tr, "accepted schedule draws %.3f kW through transformer %s rated %.1f kW (class sums %s)" % (p / 1000, tr, lim / 1000, {k: round(v, 3) for k, v in sums.items() if v}), p / 1000, lim / 1000, ctx)
     for c, s in sums.items():
         if s > 0:
@@ -312,6 +319,14 @@ def execute(item, only=None):
         buf[:] = realise(spec, idx, n, sums, spread)
         return bool(net.is_feasible(buf))
 
+    def feas_lin(sums):
+        # the linear relaxation is a verdict of the network too: whatever it accepts must respect the ratings
+        stats["feas_calls"] += 1
+        buf[:] = realise(spec, idx, n, sums)
+        return bool(net.is_feasible(buf, linear=True))
+
+    do_linear = item.get("variant") is None and item.get("voltage", 208) == 208 and (item["tier"] == "thorough" or (item["basic"] and item["factor"] in (0, 1)))
+
     for d in dirs:
         if not any(d.values()):
             continue
@@ -345,6 +360,27 @@ def execute(item, only=None):
                 for M, label in ((np.hstack([x_even, x_over]), "even-then-overload"), (np.hstack([x_over * 0.0, x_even, x_over]), "idle-even-overload")):
                     if net.is_feasible(M):
                         rep("multi-period:accepted-with-an-infeasible-period:%s" % label, "a schedule whose last period alone is rejected is accepted (periods with equal total current)", True, False, dict(ctx, lam=lam_star))
+        if do_linear:
+            # boundary of the LINEAR check along this direction (inside the phase-aware one if it is conservative)
+            if feas_lin(full):
+                lam_lin = 1.0
+            else:
+                lo, hi = 0.0, 1.0
+                for _ in range(30):
+                    mid = (lo + hi) / 2
+                    if feas_lin({c: v * mid for c, v in full.items()}):
+                        lo = mid
+                    else:
+                        hi = mid
+                lam_lin = lo
+            for lam in sorted(set(b["lambdas"]) | {lam_lin}):
+                sums = {c: v * lam for c, v in full.items()}
+                if lam <= lam_lin and feas_lin(sums):
+                    stats["n"] += 1
+                    n0 = len(viol)
+                    oracle(spec, item["factor"], sums, rep, dict(ctx, lam=lam, linear=True), stats)
+                    for k in range(n0, len(viol)):
+                        viol[k] = ("linear:" + viol[k][0],) + tuple(viol[k][1:])
         for lam in lam_pts:
             sums = {c: v * lam for c, v in full.items()}
             stats["n"] += 1
